@@ -410,3 +410,7 @@ fn default_local_stratum() -> u8 {
 fn default_warn_on_jump() -> bool {
     true
 }
+
+#[cfg(feature = "pendulum_project_ntpd_rs_verif")]
+#[path = "/verif/hooks/ntp-proto/config.rs"]
+pub mod verif_hooks;
